@@ -44,7 +44,18 @@ EXTRACT = os.path.join(ROOT, "extract_brand")
 PROBES = os.path.join(ROOT, "probes_brand")
 ENV = dict(os.environ, CARGO_NET_OFFLINE="true")
 
-sys.path.insert(0, PROBES)
+
+
+def _load(name, fname):
+    """Load probes_brand/<fname> under a unique module name (no sys.path games, no clashes)."""
+    import importlib.util
+    if name in sys.modules:
+        return sys.modules[name]
+    spec = importlib.util.spec_from_file_location(name, os.path.join(PROBES, fname))
+    mod = importlib.util.module_from_spec(spec)
+    sys.modules[name] = mod
+    spec.loader.exec_module(mod)
+    return mod
 
 MAX_REPLAYS = 8
 
@@ -56,7 +67,9 @@ def _sh(cmd, cwd=None, timeout=1800, env=None):
 
 
 def _problem(name, text, failing, header, lines=(), key=None):
-    d = dict(name=name, text=text, failing_input=bool(failing), header=list(header), lines=list(lines))
+    flat = [part for h in header for part in str(h).splitlines() if part.strip()]
+    d = dict(name=name, text=" ".join(str(text).split()), failing_input=bool(failing), header=flat,
+             lines=[l for x in lines for l in (str(x).splitlines() or [""])])
     if key:
         d["key"] = key
     return d
@@ -97,7 +110,7 @@ def _lean_compile(src, olean, lean_path, stamp_key=None):
     h = _sha(src) + (stamp_key or "")
     if os.path.exists(olean) and os.path.exists(stamp) and open(stamp).read() == h:
         return True, ""
-    rc, out = _sh(["lean", "-o", olean, src], env=dict(ENV, LEAN_PATH=lean_path), timeout=900)
+    rc, out = _sh(["lean", "-o", olean, src], cwd=os.path.dirname(src), env=dict(ENV, LEAN_PATH=lean_path), timeout=900)
     if rc == 0:
         with open(stamp, "w") as f:
             f.write(h)
@@ -236,8 +249,8 @@ def _head(ci):
 # main entry
 # ------------------------------------------------------------------------------------------
 def run(prop, tier, seed, repo=None, lean_out=None):
-    import gen
-    import run as prun
+    gen = _load("brand_probe_gen", "gen.py")
+    prun = _load("brand_probe_run", "run.py")
     t0 = time.time()
     repo = repo or os.environ.get("VERIF_BRAND_REPO") or "/repo"
     lean_out = lean_out or os.environ.get("VERIF_BRAND_LEAN_OUT") or os.path.join(LEAN, "GcArena", "Generated", "BrandTable.lean")
@@ -283,10 +296,10 @@ def run(prop, tier, seed, repo=None, lean_out=None):
     res["summary"]["theorem_hypotheses"] = {k: ("ok" if not v else v) for k, v in pred["viol"].items()}
     for th, entries in pred["viol"].items():
         if entries:
-            lines = explain_entries(th, entries, table)
+            lines = explain_entries(th, list(dict.fromkeys(entries)), table)
             problems.append(_problem(
                 f"table-{th}",
-                f"table theorem GcArena.C12.{th} no longer checks on the regenerated BrandTable: {THEOREM_TEXT.get(th, '')}: {', '.join(entries[:6])}",
+                f"table theorem GcArena.C12.{th} no longer checks on the regenerated BrandTable: {THEOREM_TEXT.get(th, '')}: {', '.join(list(dict.fromkeys(entries))[:8])}",
                 True,
                 [f"property C12: table theorem GcArena.C12.{th} (Props/C12.lean) fails on the table regenerated from {repo}/src",
                  THEOREM_TEXT.get(th, ""), "violating table entries (source facts) follow; re-run ./check C12 to re-extract"],
@@ -370,8 +383,11 @@ def run(prop, tier, seed, repo=None, lean_out=None):
     # group violations so that one weakened fact does not produce hundreds of replays
     seen = {}
     for p, r, extra in viol:
-        g = (p["cls"], p.get("entry", ""), p.get("kind", "")) if p["cls"] == "escape" else (p["cls"], p["id"].rsplit("_", 1)[0], "")
+        g = (p["cls"], p.get("entry", ""), p.get("kind", "")) if p["cls"] == "escape" else (p["cls"], "", "")
         seen.setdefault(g, []).append((p, r, extra))
+    for g in seen:
+        # representative: one whose exploit variant actually ran, if any
+        seen[g].sort(key=lambda it: 0 if any("DANGLING" in x for x in it[2]) else 1)
     groups = sorted(seen.items(), key=lambda kv: (kv[0][0] != "escape", kv[0]))
     for gi, (g, items) in enumerate(groups):
         if gi >= MAX_REPLAYS:
@@ -382,7 +398,7 @@ def run(prop, tier, seed, repo=None, lean_out=None):
                 "variance": "brand coercion (the type is not invariant in its brand)",
                 "auto": "Send / Sync holds for a type that must not be thread-movable",
                 "collect-static": "smuggling a Gc through a root type that is not traced",
-                "dynroot": "a DynamicRoot fetched from the wrong DynamicRootSet was handed out"}.get(p["cls"], p["cls"])
+                "dynroot": "fetching a DynamicRoot from the wrong DynamicRootSet"}.get(p["cls"], p["cls"])
         header = [f"property C12 violated: {what}",
                   f"probe {p['id']} (class {p['cls']}): a safe client program that must be rejected compiles" if not p.get("run") else
                   f"probe {p['id']} (class {p['cls']}): compiles by design, but must panic / return Err at run time and did not",
@@ -390,7 +406,8 @@ def run(prop, tier, seed, repo=None, lean_out=None):
                   f"rustc: {r['outcome']}; {len(items)} probe(s) of this group behave the same: {', '.join(q['id'] for q, _, _ in items[:6])}",
                   f"compile with: rustc --edition 2024 --extern gc_arena=<rlib> -L dependency=<deps> probe.rs   (crate built from {repo})"] + extra
         src = p.get("exploit") if (p.get("exploit") and extra and "did not compile" not in " ".join(extra)) else p["src"]
-        problems.append(_problem(f"probe-{p['id']}", f"C12 probe {p['id']}: {what} is accepted by rustc", True, header,
+        verdict = "was not refused at run time" if p.get("run") else "is accepted by rustc"
+        problems.append(_problem(f"probe-{p['id']}", f"C12 probe {p['id']}: {what} {verdict}", True, header,
                                  src.splitlines(), key=f"probe:{p['cls']}:{p.get('entry', '')}:{p.get('kind', '')}"))
     if len(groups) > MAX_REPLAYS:
         res["summary"]["violations_not_replayed"] = [f"{g}: {len(it)}" for g, it in groups[MAX_REPLAYS:]]
@@ -418,7 +435,7 @@ def run(prop, tier, seed, repo=None, lean_out=None):
 
 def replay(path, repo=None):
     """Re-run the program stored in a replay file written from one of this engine's problems."""
-    import run as prun
+    prun = _load("brand_probe_run", "run.py")
     repo = repo or os.environ.get("VERIF_BRAND_REPO") or "/repo"
     body = []
     started = False
